@@ -162,6 +162,10 @@ def cases(ctx):
         f = ashlib.mk_frame("D:0:0:0:0102")
         tail = b"\x7e" + bytes(ash.AshProtocol._stuff_bytes(f.to_bytes())) + b"\x7e"
         cs.append((0, [g] * ctx.n(30, 300) + [tail]))
+        # ... of every kind of byte that does not end a frame: a line stuck on the escape byte, escape-rich noise, valid escape pairs
+        for g in (bytes([0x7D]) * size, bytes(rng.choice([0x7D, 0x7D, 0x5E, 0x31, 0xEE]) for _ in range(size)), bytes([0x7D, 0x5E]) * (size // 2),
+                  bytes([0xEE] * (size - 3) + [0x7D] * 3)):
+            cs.append((0, [g] * ctx.n(30, 300) + [tail]))
     return cs
 
 
